@@ -544,6 +544,26 @@ Ltac prim_case lem :=
       end
   end.
 
+Lemma clear_core_wfs : forall sc st ps tid tk pa pt fl its,
+  wfs st -> get_at st ps = Some (Node tid tk pa pt fl its) -> keys_ok tk [] -> wfs (clear_core sc st ps its).
+Proof.
+  intros. destruct (container_facts _ _ _ _ _ _ _ _ H H0) as (Ept & KO & F).
+  assert (wfs (detach_all (update_at st ps (set_items [])) its)).
+  { apply detach_all_wfs; [|eapply children_wf_any; eauto].
+    eapply wfs_replace_items; [exact H | exact H | exact H0 | auto | exact H1 | constructor]. }
+  unfold clear_core. destruct its; auto. destruct (notify_on sc); auto using fix_chain_wfs.
+Qed.
+Lemma reorder_core_wfs : forall sc st ps tid pa pt fl its its',
+  wfs st -> get_at st ps = Some (Node tid KList pa pt fl its) -> Forall (child_wf tid pt) its' ->
+  wfs (reorder_core sc st ps pt its its').
+Proof.
+  intros.
+  assert (wfs (update_at st ps (set_items (renum pt its')))).
+  { eapply wfs_replace_items; [exact H | exact H | exact H0 | auto | apply renum_keys | ].
+    apply renum_wf. apply child_wf_any_of; auto. }
+  unfold reorder_core. destruct (negb (all_same its its') && notify_on sc); auto using fix_chain_wfs.
+Qed.
+
 Ltac fin E := inv E; auto; try (destruct (notify_on _)); auto using fix_chain_wfs, notified_wfs.
 
 Lemma exec_wfs : forall q sc st ps tid tk pa tpth tfl its ro st' out,
@@ -583,20 +603,16 @@ Proof.
     destruct (negb (writable_via_accessors sc tfl)); [inv E; auto|].
     destruct (ldel_core sc st ps n) as [st1 r] eqn:L. inv E. eapply ldel_core_wfs; eauto.
   - (* LClear *)
-    inv E. apply detach_all_wfs; auto.
-    eapply wfs_replace_items; [exact W | exact W | exact G | auto | simpl; auto | constructor].
+    inv E. eapply clear_core_wfs; eauto; simpl; auto.
   - (* LReverse *)
-    inv E. eapply wfs_replace_items; [exact W | exact W | exact G | auto | apply renum_keys | ].
-    apply renum_wf. apply child_wf_any_of. apply Forall_rev; auto.
+    inv E. eapply reorder_core_wfs; eauto; apply Forall_rev; auto.
   - (* LSort *)
-    inv E. eapply wfs_replace_items; [exact W | exact W | exact G | auto | apply renum_keys | ].
-    apply renum_wf. apply child_wf_any_of. apply sorted_forall; auto.
+    inv E. eapply reorder_core_wfs; eauto; apply sorted_forall; auto.
   - (* LIAdd *) eapply extend_core_wfs; eauto.
   - (* LIMul *)
     destruct (n <=? 0).
-    + inv E. apply detach_all_wfs; auto.
-      eapply wfs_replace_items; [exact W | exact W | exact G | auto | simpl; auto | constructor].
-    + eapply repeat_extend_wfs; [exact W | apply rv_of_item_ok | exact E].
+    + inv E. eapply clear_core_wfs; eauto; simpl; auto.
+    + eapply extend_core_wfs; [exact W | apply repeat_list_forall, rv_of_item_ok | exact E].
   - (* LAdd *)
     destruct (treats_as_sealed sc default_flags); [inv E; auto|].
     destruct (new_list_from q st its) as [c st1] eqn:NL.
@@ -636,12 +652,13 @@ Proof.
     destruct (rev its) as [|[k old] r] eqn:R; [inv E; auto|]. inv E.
     assert (In (k, old) its). { apply in_rev. rewrite R. simpl; auto. }
     rewrite Forall_forall in FA. destruct (FA _ H) as (ep & p0 & Wo).
-    eapply wfs_add_detached; eauto.
-    eapply wfs_replace_items; [exact W | exact W | exact G | auto | | apply removelast_forall; auto].
-    simpl. rewrite map_fst_removelast. apply removelast_nodup; auto.
+    assert (wfs (add_detached (update_at st ps (set_items (removelast its))) old)).
+    { eapply wfs_add_detached; eauto.
+      eapply wfs_replace_items; [exact W | exact W | exact G | auto | | apply removelast_forall; auto].
+      simpl. rewrite map_fst_removelast. apply removelast_nodup; auto. }
+    destruct (notify_on sc); auto using fix_chain_wfs.
   - (* DClear *)
-    inv E. apply detach_all_wfs; auto.
-    eapply wfs_replace_items; [exact W | exact W | exact G | auto | simpl; constructor | constructor].
+    inv E. eapply clear_core_wfs; eauto; simpl; constructor.
   - (* DSetDefault *)
     assert (X : forall st1 p, dprim q sc st ps k v = (st1, p) -> wfs st1) by (intros; eapply dprim_wfs; eauto).
     destruct (assoc k its) as [old|].
